@@ -67,6 +67,8 @@ std::vector<Input> make_alphabet() {
     { "func-radical", "[α∈ℬ(R1)] α∪α", U, "funcdef", 'F' },
     { "func-unused-arg", "[α∈X1] 1=1", U, "warning", 'P' },                                 // localNotUsed for a parameter
     { "func-body-fails", "[α∈ℬ(X1), β∈X1] α∪β", U, "type-error", 'F' },                     // fails AFTER functionArgs were filled
+    { "func-arglist-fails-shadow", "[α∈X1, α∈X1] {α}", U, "type-error", 'F' },               // fails INSIDE the argument list after one argument was accepted
+    { "func-arglist-fails-domain", "[α∈X1, β∈α] β", U, "type-error", 'F' },                  // second domain is not a set: fails after the first argument
     // --- global declarations (FinalizeCst*, NameCollector rejections)
     { "decl-term", "D2:==X1∪X1", U, "globaldecl", 'D' },
     { "decl-empty", "X3:==", U, "globaldecl", 'D' },
